@@ -899,6 +899,9 @@ func (q *Query) Render(produceModels bool) (string, map[string]*Term) {
 			}
 			return fmt.Sprintf("(%s (%s) %s)", t.op, strings.Join(bs, " "), expr(t.args[len(t.args)-1]))
 		}
+		if len(t.args) == 0 {
+			return t.op
+		}
 		var parts []string
 		if t.op == "app" {
 			parts = append(parts, smtName(t.name))
